@@ -103,6 +103,10 @@ func TestVerif_C13(t *testing.T) {
 			}
 		}
 	}
+	// routes that arrive by full-table REPLAY (a link that comes up after the relay has learned them)
+	scs = append(scs,
+		nsFloodScenario{N: 3, Edges: [][2]int{{0, 1}}, LateEdges: [][2]int{{1, 2}}, Exits: []int{0}, Announces: 1},
+		nsFloodScenario{N: 4, Edges: [][2]int{{0, 1}, {1, 2}}, LateEdges: [][2]int{{2, 3}}, Exits: []int{0}, Announces: 1})
 	for _, sc := range scs {
 		if r.Expired() {
 			break
